@@ -304,6 +304,8 @@ fn op_kind(o: &Op) -> u8 {
         Op::SetTight { on } => 131 + *on as u8,
         Op::AppPubrelBig { .. } => 133,
         Op::SwapSide => 137,
+        Op::ConnectAgain => 159,
+        Op::DisconnectBig => 160,
         Op::PubFailContinue { qos, .. } => 138 + qos,
         Op::PeerPubrelRc { rc, .. } => 141 + (*rc != 0) as u8,
         Op::PeerAfterClose { kind } => 143 + kind,
@@ -410,6 +412,7 @@ fn tune(prop: &str, c: &mut Cfg, p: &mut GenProfile, r: &mut Rng) {
             c.s_mps = *r.pick(&l);
             p.w_pub = 45;
             p.w_peerpub = 25;
+            p.w_disc = 3;
         }
         "C19" => {
             if c.wire_v == 5 && r.chance(1, 2) {
@@ -420,6 +423,7 @@ fn tune(prop: &str, c: &mut Cfg, p: &mut GenProfile, r: &mut Rng) {
             c.ka = *r.pick(&[0u16, 5, 10, 60]);
             c.pingresp_to_ms = *r.pick(&[0u64, 3000]);
             p.w_timer = 15;
+            p.w_disc = 4;
         }
         "C15" => {
             if c.wire_v == 5 && r.chance(1, 3) {
